@@ -209,6 +209,49 @@ fn check_pretag(c: &PreTagCase, cx: &mut Cx) -> Res {
     Ok(())
 }
 
+/// commit post-mode, pre-release base tag of the shapes flow prints: every further commit gives
+/// a strictly greater version, starting from the tag itself (0 commits)
+fn check_pretag_mono(c: &(PreTagCase, u64, u64), cx: &mut Cx) -> Res {
+    let (t, d1, d2) = c;
+    let l = ["alpha", "beta", "rc"][t.label as usize % 3];
+    let tag = match t.post {
+        Some(p) => format!("{}.{}.{}-{l}.{}.post.{p}", t.core[0], t.core[1], t.core[2], t.n),
+        None => format!("{}.{}.{}-{l}.{}", t.core[0], t.core[1], t.core[2], t.n),
+    };
+    let run = |d: u64| {
+        let mut a = vec!["--source=none".to_string(), format!("--tag-version={tag}"), "--input-format=semver".into(), format!("--distance={d}"), "--no-dirty".into(), "--post-mode=commit".into(), "--schema=standard-base-prerelease-post".into()];
+        if let Some(b) = &t.branch {
+            a.push(format!("--bumped-branch={b}"));
+        }
+        a.push(format!("--output-format={}", if t.pep440 { "pep440" } else { "semver" }));
+        (cli::flow(&a, None), a)
+    };
+    let (r1, a1) = run(*d1);
+    let (r2, a2) = run(*d2);
+    let (v1, v2) = match (r1, r2) {
+        (cli::Run::Ok(x), cli::Run::Ok(y)) => (x, y),
+        (cli::Run::Panic(p), _) | (_, cli::Run::Panic(p)) => return fail(format!("flow panicked on {a1:?} / {a2:?}: {p}")),
+        _ => return Ok(()), // e.g. a post number that would leave the u32 range
+    };
+    cx.nt();
+    cx.note(|| format!("{tag} +{d1} -> {v1}; +{d2} -> {v2}"));
+    if *d1 == 0 {
+        // the tag itself takes part only when it is a tag of THIS line: the branch resolves to the
+        // tag's own label and number (a tag cut elsewhere, e.g. alpha.1 seen from a branch whose
+        // number is 0, is simply a different series)
+        let lp = ["a", "b", "rc"][t.label as usize % 3];
+        let same_series = if t.pep440 { v2.starts_with(&format!("{}.{}.{}{lp}{}.", t.core[0], t.core[1], t.core[2], t.n)) } else { v2.starts_with(&format!("{}.{}.{}-{l}.{}.", t.core[0], t.core[1], t.core[2], t.n)) };
+        if !same_series {
+            cx.label("tag-of-another-series");
+            return Ok(());
+        }
+        cx.label("from-the-tag-itself");
+    }
+    let ord = cmp_out(&v1, &v2, t.pep440)?;
+    ensure!(ord == Ordering::Less, "{d1} commits after {tag} give {v1:?}, {d2} commits give {v2:?}: not strictly greater ({a2:?})");
+    Ok(())
+}
+
 #[derive(Debug, Clone, Hash, Serialize, Deserialize)]
 pub struct ChainCase {
     pub tag: [u64; 3],
@@ -378,6 +421,36 @@ pub fn property() -> Property {
         },
         check_pretag,
     );
+    let pretag_mono = RandomSub::<(PreTagCase, u64, u64)>::new(
+        "prerelease-tag-monotone",
+        (10_000, 200_000),
+        |_| {
+            (
+                (0u64..20, 0u64..20, 0u64..20),
+                0u8..3,
+                prop_oneof![3 => 0u64..50, 1 => gens::num::u32_biased().prop_map(|x| x.min(4_000_000_000))],
+                proptest::option::weighted(0.7, 0u64..1000),
+                proptest::option::weighted(0.9, prop_oneof![3 => gens::pick(&["develop", "main", "feature/x", "feature/12/y", "release/3", "hotfix/9", "x"]).prop_map(String::from), 1 => c04::branch_shapes()]),
+                any::<bool>(),
+                prop_oneof![2 => Just(0u64), 3 => 0u64..6],
+                1u64..6,
+            )
+                .prop_map(|((a, b, c), label, n, post, branch, pep440, d1, step)| {
+                    // half of the cases: a tag of the branch's own series (label and number as the
+                    // default rules derive them), so that the tag itself takes part
+                    let (label, n, branch) = match (a + b + c) % 6 {
+                        0 => (0, 12, Some("feature/12/y".to_string())),
+                        1 => (2, 3, Some("release/3".to_string())),
+                        2 => (0, 7, Some("feature/7".to_string())),
+                        _ => (label, n, branch),
+                    };
+                    (PreTagCase { core: [a, b, c], label, n, post, branch, preset: None, pep440, distance0: false }, d1, d1 + step)
+                })
+                .boxed()
+        },
+        check_pretag_mono,
+    )
+    .floor(0.5);
     let chains = RandomSub::<ChainCase>::new(
         "git-chains",
         (100, 1_500),
@@ -398,7 +471,7 @@ pub fn property() -> Property {
             "standard-base and standard-base-context drop the pre-release by documented design; there V == X.Y.(Z+1) is asserted instead of the strict upper bound",
             "PEP 440 order is the public-version order (local build context ignored)",
         ],
-        subs: vec![bounds.boxed(), mono.boxed(), pretag.boxed(), chains.boxed()],
+        subs: vec![bounds.boxed(), mono.boxed(), pretag.boxed(), pretag_mono.boxed(), chains.boxed()],
         known_repro: vec![],
     }
 }
